@@ -12,7 +12,8 @@ def gen_case(rng, i):
     cplx = dtype in (torch.complex128, torch.complex64)
     is_ttm = rng.random() < 0.25
     d = rng.choice([1, 2, 3, 3, 4, 4, 5, 6, 7])
-    fam = rng.choice(["random", "inflated", "scaled", "deficient", "zero", "cancel", "budget"])
+    fam = rng.choice(["random", "inflated", "scaled", "deficient", "zero", "cancel", "budget", "zero-slot"])
+    if fam == "zero-slot" and d < 2: fam = "random"
     if fam == "budget" and d < 3: fam = "random"
     N = [rng.choice([1, 2, 2, 3, 4]) for _ in range(d)]
     M = [rng.choice([1, 2, 3]) for _ in range(d)] if is_ttm else None
@@ -36,6 +37,28 @@ def gen_case(rng, i):
             if cores[k].shape[-1] > 1: cores[k][..., -1] = cores[k][..., 0]
     elif fam == "zero":
         k = rng.randrange(d); cores[k] = cores[k] * 0
+    elif fam == "zero-slot":     # t1 + 0 + t2 as the block sum stores it: an exactly zero rank slot between two live ones (the QR sweep meets a zero pivot that is not the last)
+        def bsum(cs):
+            out = []
+            for k in range(d):
+                blocks = [c[k] for c in cs]
+                if k == 0: out.append(np.concatenate(blocks, -1))
+                elif k == d - 1: out.append(np.concatenate(blocks, 0))
+                else:
+                    r0s = [b.shape[0] for b in blocks]; r1s = [b.shape[-1] for b in blocks]
+                    c = np.zeros((sum(r0s),) + blocks[0].shape[1:-1] + (sum(r1s),), dtype=blocks[0].dtype)
+                    a0 = a1 = 0
+                    for b in blocks:
+                        c[a0:a0 + b.shape[0], ..., a1:a1 + b.shape[-1]] = b; a0 += b.shape[0]; a1 += b.shape[-1]
+                    out.append(c)
+            return out
+        t2 = [core(k, R[k], R[k + 1]) for k in range(d)]
+        z = [np.zeros_like(core(k, 1, 1)) for k in range(d)]
+        order = rng.choice([[0, 1, 2], [1, 0, 2], [0, 1, 2]])
+        parts = [cores, z, t2]
+        cores = bsum([parts[j] for j in order])
+        R = [1] + [cores[k].shape[-1] for k in range(d - 1)] + [1]
+        eps = max(eps, 1e-12)
     elif fam == "cancel" and d >= 2:   # tiny last core next to a huge first one; norm of the last core != norm of the tensor
         cores[-1] = cores[-1] * 1e-5; cores[0] = cores[0] * 1e5
     elif fam == "budget":        # every bond discards a tail just below its allowance: x = e0^d + c * sum_k (e0..e1 e1..e0)
